@@ -10,6 +10,9 @@ CLAIMED = {
     "C08": ("exploration", "4 C08", "deterministic simulation: filter builds under shuttle schedules, membership oracle plus 6-sigma binomial test on seeded non-member probes",
             "Same simulated world as C07 through try_build_filter for every backend family and every filter width; no-false-negative is checked for every inserted key, the false-positive rate statistically per case.",
             "Trusted as for C07; the FPR clause is statistical (6 sigma, false-alarm probability per case < 1e-8)."),
+    "C13": ("exploration", "4 C13", "deterministic simulation: writer threads under shuttle (seeded random and PCT schedulers) with add-only scheduling points before every atomic operation; bit-exact storage model, exact linearizability check for swap",
+            "Seeded search over interleavings of the atomic operations of 2-3 writers (4 for swap) for every word type, width and index placement; every storage bit is compared with a model after join. Sampling of schedules, not enumeration.",
+            "Sequentially consistent interleavings at the granularity of atomic operations (the granularity at which a lost update exists). Trusted: shuttle, the bit-array model."),
     "C17": ("fault_enumeration", "4 C17", "deterministic simulation with fault enumeration: every single-fault placement (key/value item x pass, rewind ordinal, disk budgets) per seeded template, under shuttle",
             "For each seeded input the complete set of single-fault placements over every pass the reference run reached is executed; duplicates force four passes so retry passes are really faulted. Complete per template, templates sampled.",
             "Single faults only; a panic by unwinding is accepted for hard disk faults inside shard iteration (the store unwraps there). Trusted: FaultyLender, SimFile, shuttle."),
@@ -32,7 +35,6 @@ PENDING = {
     "C05": "check not built yet in this snapshot (planned: simcheck bits world)",
     "C06": "check not built yet in this snapshot (planned: simcheck bits world)",
     "C10": "check not built yet in this snapshot (planned: simcheck bits world)",
-    "C13": "check not built yet in this snapshot (planned: shuttle over sched_point hooks)",
     "C14": "check not built yet in this snapshot (planned: simcheck bits world)",
     "C15": "check not built yet in this snapshot (planned: simcheck serde world)",
     "C18": "check not built yet in this snapshot (planned: simcheck sigstore world)",
